@@ -302,6 +302,72 @@ fn stop_clause(p: &FixedProg) -> (u64, Vec<Violation>) {
     (runs, out)
 }
 
+/// Second clause at statement positions other than "own line": `{S}` is replaced by STOP
+/// (assignment typed at the breakpoint, then CONT) and by the assignment itself.
+fn stop_placements() -> Vec<(&'static str, Vec<&'static str>)> {
+    vec![
+        ("under THEN with ELSE", vec!["10 Y=1: X=2", "20 IF Y THEN {S} ELSE PRINT \"no\"", "30 PRINT \"a\";X;Y;A$;I;A(1)"]),
+        ("under ELSE", vec!["10 Y=1: X=2", "20 IF 0 THEN PRINT 1 ELSE {S}: PRINT \"c\"", "30 PRINT \"a\";X;Y;A$;I;A(1)"]),
+        ("under THEN followed by a statement", vec!["10 Y=1: X=2", "20 IF Y THEN {S}: PRINT \"c\"", "30 PRINT \"a\";X;Y;A$;I;A(1)"]),
+        ("between statements on a line", vec!["10 Y=1: X=2: PRINT \"p\";: {S}: PRINT \"q\";X", "30 PRINT \"a\";X;Y;A$;I;A(1)"]),
+        ("inside FOR on one line", vec!["10 Y=1: FOR I=1 TO 2: {S}: NEXT I", "30 PRINT \"a\";X;Y;A$;I;A(1)"]),
+        ("inside a subroutine under THEN with ELSE", vec!["10 Y=1: GOSUB 100: PRINT \"r\";X: GOTO 30", "30 PRINT \"a\";X;Y;A$;I;A(1): END", "100 IF Y THEN {S} ELSE PRINT \"no\"", "110 RETURN"]),
+        ("nested IF, inner ELSE", vec!["10 Y=1", "20 IF Y THEN IF Y THEN {S} ELSE PRINT \"no\"", "30 PRINT \"a\";X;Y;A$;I;A(1)"]),
+    ]
+}
+
+fn stop_placement_clause() -> (u64, Vec<Violation>) {
+    let assignments = ["X=7", "A$=\"Q\"", "I=I+1", "A(1)=9", "Y=0"];
+    let mut out = vec![];
+    let mut runs = 0u64;
+    for (name, tmpl) in stop_placements() {
+        for a in assignments {
+            runs += 1;
+            let with_stop: Vec<String> = tmpl.iter().map(|l| l.replace("{S}", "STOP")).collect();
+            let in_place: Vec<String> = tmpl.iter().map(|l| l.replace("{S}", a)).collect();
+            let mut s = Sess::new();
+            let mut hist = vec![];
+            for l in &with_stop {
+                let e = Ev::Line(l.clone());
+                let _ = s.apply(&e);
+                hist.push(e);
+            }
+            s.recs.clear();
+            let mut none = std::iter::empty();
+            let mut end = s.run_line("RUN", &mut none, 2000);
+            hist.push(Ev::LineToIdle("RUN".into()));
+            let mut stops = 0;
+            while end == RunEnd::Idle && s.it.verif_snapshot().breakpoint.is_some() && stops < 10 {
+                stops += 1;
+                let e = Ev::LineToIdle(a.to_string());
+                let _ = s.apply(&e);
+                hist.push(e);
+                end = s.run_line("CONT", &mut none, 2000);
+                hist.push(Ev::LineToIdle("CONT".into()));
+            }
+            let got = (program_records(&s.recs), format!("{:?}", end), stops);
+            let mut s2 = Sess::new();
+            for l in &in_place {
+                let _ = s2.apply(&Ev::Line(l.clone()));
+            }
+            s2.recs.clear();
+            let end2 = s2.run_line("RUN", &mut none, 2000);
+            let want = (program_records(&s2.recs), format!("{:?}", end2));
+            if stops == 0 {
+                machinery(&format!("STOP placement '{}' never stopped", name));
+            }
+            if (got.0.clone(), got.1.clone()) != want {
+                out.push(Violation {
+                    signature: format!("STOP+assignment differs from assignment in place: STOP {} / {}", name, a),
+                    detail: format!("with STOP and {} typed at the breakpoint ({} stops): {:?} {}; with the assignment in the program: {:?} {}", a, got.2, got.0, got.1, want.0, want.1),
+                    case: case_history(&hist, false, false),
+                });
+            }
+        }
+    }
+    (runs, out)
+}
+
 pub fn run(thorough: bool) -> Report {
     let mut rep = Report::new("C07", "model_checking");
     let k = if thorough { 3 } else { 2 };
@@ -374,6 +440,13 @@ pub fn run(thorough: bool) -> Report {
         }
     }
     let mut stop_runs = 0u64;
+    {
+        let (r, v) = stop_placement_clause();
+        stop_runs += r;
+        for x in v {
+            rep.add(x);
+        }
+    }
     for p in &progs {
         let (r, v) = stop_clause(p);
         stop_runs += r;
